@@ -139,3 +139,11 @@ def _pinned_production_lf(col):
 
 
 PINNED = [('production load factor, multi-block model edits', _pinned_production_lf)]
+
+
+def _suite_under_monitor(col):
+    from .. import suiteworkload
+    suiteworkload.run(col, ('M1',), 'store-vs-list')
+
+
+THOROUGH_EXTRA = [('the repository test suite under the universal monitors', _suite_under_monitor)]
